@@ -2,7 +2,8 @@ import StepModel.AttrNull
 /-! Line-protocol driver for the C15 model.
     request : `read <strict 0|1> | <inst> | <inst> …`
               inst  := `S <part>` | `X <part> ; <part> ; …`      (parts of a complex instance in the writer's order)
-              part  := (<KIND>:<optional 0|1>:<derived 0|1>:<Type() is REFERENCE_TYPE 0|1>:<redeclared position 0|1>:<tok>)*
+              part  := (RD | <KIND>:<optional 0|1>:<derived 0|1>:<Type() is REFERENCE_TYPE 0|1>:<redeclared position 0|1>:<tok>)*
+                                                             RD = a redefining attribute of the C++ attribute list (no value in the file)
                                                              tok := M1 (`$`) | M0 (nothing) | ST (`*`) | L<SEV>
     reply   : `F sev=<file severity> exit=<p21read exit> | <instance severity>/<state>/<part>.<pos>=<value words>,… | …`
               (values are listed for the positions whose token was M0/M1)
@@ -34,8 +35,14 @@ def parseSlot (w : String) : Option (AttrD × Tok) :=
   | _ => none
 
 def parsePart (ws : List String) : Option (List AttrD × List Tok) := do
-  let slots ← ws.mapM parseSlot
+  let slots ← (ws.filter (· ≠ "RD")).mapM parseSlot
   pure (slots.map (·.1), slots.map (·.2))
+
+/-- the C++ attribute list of an internally mapped instance: `RD` words stand for redefining attributes -/
+def parseSlots (ws : List String) : Option (List Slot × List Tok) := do
+  let xs ← ws.mapM (fun w => if w = "RD" then some (none : Option (AttrD × Tok)) else (parseSlot w).map some)
+  pure (xs.map (fun x => match x with | some (a, _) => Slot.attr a | none => Slot.redefining),
+        xs.filterMap (fun x => x.map (·.2)))
 
 def splitOnWord (sep : String) (ws : List String) : List (List String) :=
   let rec go : List String → List String → List (List String) → List (List String)
@@ -46,11 +53,15 @@ def splitOnWord (sep : String) (ws : List String) : List (List String) :=
 structure PInst where
   complex : Bool
   parts : List (List AttrD × List Tok)
+  slots : List Slot := []
 
 def parseInst (ws : List String) : Option PInst :=
   match ws with
-  | "S" :: r => do let p ← parsePart r; pure ⟨false, [p]⟩
-  | "X" :: r => do let ps ← (splitOnWord ";" r).mapM parsePart; pure ⟨true, ps⟩
+  | "S" :: r => do
+    let p ← parsePart r
+    let (es, _) ← parseSlots r
+    pure ⟨false, [p], es⟩
+  | "X" :: r => do let ps ← (splitOnWord ";" r).mapM parsePart; pure ⟨true, ps, []⟩
   | _ => none
 
 def missingVals (parts : List (List AttrD × List Tok)) (vals : List (List Val)) : String :=
@@ -74,7 +85,7 @@ def handle (line : String) : String :=
           let (s, vs) := complexRead (fileStrictFor true strict) i.parts
           ((⟨s, true⟩ : InstResult), vs)
         else match i.parts with
-          | [p] => let (s, vs) := instRead (fileStrictFor false strict) p.1 p.2; ((⟨s, false⟩ : InstResult), [vs])
+          | [p] => let (s, vs) := loopRead (fileStrictFor false strict) i.slots p.2; ((⟨s, false⟩ : InstResult), [vs])
           | _ => ((⟨.max, false⟩ : InstResult), []))
       let e := fileSev (results.map (·.1))
       let per := (insts.zip results).map (fun (i, (r, vs)) =>
